@@ -12,7 +12,7 @@ VERIF = os.path.dirname(os.path.dirname(os.path.abspath(__file__)))
 REPO = "/repo"
 # mutants are applied to a scratch copy of /repo (FGUTILS_REPO), so that /repo itself stays untouched
 # while other work reads it; --in-place applies to /repo itself as the brief describes
-SCRATCH = "/tmp/seeded_repo_copy"
+SCRATCH = os.environ.get("SEEDED_SCRATCH", "/tmp/seeded_repo_copy")
 
 
 def sh(cmd, **k):
